@@ -182,6 +182,15 @@ func cmdCheck(args []string) int {
 			}
 			u.Ctx.obls = kept
 		}
+		// clauses restricted to other properties
+		var kept []*Obligation
+		for _, o := range u.Ctx.obls {
+			if o.Clause != nil && len(o.Clause.OnlyProps) > 0 && *prop != "" && !contains(o.Clause.OnlyProps, *prop) {
+				continue
+			}
+			kept = append(kept, o)
+		}
+		u.Ctx.obls = kept
 	}
 	sv.dischargeAll(units, 16)
 
